@@ -239,15 +239,10 @@ def getitem(it, obj, k):
 
 
 def pin_index(it, k, n):
-    """Make a symbolic index concrete by forking over -n..n-1 (out of range -> one class)."""
+    """Make a symbolic index concrete (feasible values enumerated through solver models)."""
     if not isinstance(k, (SInt, SBool)):
         return k
-    e = zint(k)
-    v = it.p._holds_in_model(e == e)  # ensure a model exists lazily
-    for c in range(-n, n):
-        if it.p.branch(e == c):
-            return c
-    return n + 1 if it.p.branch(e > 0) else -n - 2
+    return fix_bound(it, k, n)
 
 
 def getslice(it, obj, lo, hi):
@@ -268,22 +263,24 @@ def getslice(it, obj, lo, hi):
 
 
 def fix_bound(it, b, n):
+    """Make a symbolic slice bound concrete: enumerate its feasible values through solver models
+    (one fork per feasible value); everything beyond the ends is one class."""
     if not isinstance(b, (SInt, SBool)):
         return b
     e = zint(b)
-    # try the value of the current model first: if it is the only one, no fork is needed
-    m = it.p.current_model()
-    v = m.eval(e, model_completion=True).as_long()
-    if it.p.branch(e == v):
-        pass
-    else:
-        for c in range(-n - 1, n + 2):
-            if c != v and it.p.branch(e == c):
-                v = c
-                break
-        else:
-            v = (n + 1) if it.p.branch(e > 0) else (-n - 2)
-    return max(-n - 2, min(n + 1, v))
+    for _ in range(2 * n + 8):
+        v = it.p.current_model().eval(e, model_completion=True).as_long()
+        if v > n:
+            if it.p.branch(e > n):
+                return n + 1
+            continue
+        if v < -n - 1:
+            if it.p.branch(e < -n - 1):
+                return -n - 2
+            continue
+        if it.p.branch(e == v):
+            return v
+    raise Unsupported("slice bound enumeration did not converge")
 
 
 # ------------------------------------------------------------------------------------------------
